@@ -987,4 +987,23 @@ theorem fromReader_line_order {kv : AMap Scalar} {l : List (String × Scalar)} (
   simp only [fromReader, decoderFn, h1, h2]
 
 
+
+/-- a segment over the path-safe alphabet does not end in an index group -/
+theorem hasIdxSuffix_of_safe (s : String) (h : ∀ c ∈ s.toList, safeChar c = true) : hasIdxSuffix s = false := by
+  simp only [hasIdxSuffix, stripIdx]
+  cases hr : s.toList.reverse with
+  | nil => simp
+  | cons c r =>
+    have hc : safeChar c = true := h c (by
+      have : c ∈ s.toList.reverse := by rw [hr]; exact List.mem_cons_self ..
+      simpa using this)
+    have hne : c ≠ ']' := by
+      intro e; subst e; revert hc; decide
+    split
+    · rename_i r' heq
+      cases heq
+      exact absurd rfl hne
+    · simp
+
+
 end Ytk.Props
